@@ -20,6 +20,34 @@ CHECKS = {
         design="§4 C18",
         technique="Lean 4 proof (induction over lists) + model/implementation correspondence via line-protocol driver",
     ),
+    "C01": dict(
+        text="Lean 4 theorems: for every pool size, mapping, candidate-utility vector, batch size and noise the common query tail "
+        "(clip batch size, scatter through mapping, simple_batch) returns min(b,#candidates) pairwise distinct candidates "
+        "(poolQueryA_valid / _none_valid / _valid_rows / _valid_nan / _prop_valid); validBatchB_iff ties the Boolean decider to the "
+        "statement. Tie to the code: every exported pool strategy is run on generated pools in all candidate modes; Skeleton-A strategies "
+        "are compared bit-exactly with the model through the captured simple_batch call; every implementation output is judged by the "
+        "property oracle and by the proved-equivalent Lean decider. Strategies with their own selection loops are covered by the oracle "
+        "and decider only (their loops are not yet modelled).",
+        design="§4 C01",
+        technique="Lean 4 proof (induction, refinement to simple_batch spec) + model/implementation correspondence with spies",
+    ),
+    "C02": dict(
+        text="Lean 4 theorems: ValidUtils (shape, NaN exactly at non-candidates and earlier picks, pick attains row maximum) holds for the "
+        "scatter + simple_batch skeleton for all inputs (poolQueryA_utils, _utils_rows, simpleBatch_max_validUtils); validUtilsB_iff makes the "
+        "Boolean decider run on implementation outputs sound and complete; stepwise_implies_valid derives distinctness/membership from C02. "
+        "Tie to the code as for C01.",
+        design="§4 C01/C02",
+        technique="Lean 4 proof + model/implementation correspondence with spies",
+    ),
+    "C14": dict(
+        text="Lean 4 theorem alLoop_exhausts: for every query function returning a C01-valid batch at every labeling, every initial labeling, "
+        "batch size and oracle, the loop queries only unlabeled samples, never repeats one and exhausts the pool after exactly ceil(u/b) queries "
+        "(induction on the number of unlabeled samples); skeletonA_loop discharges the hypothesis for Skeleton-A strategies from C01; "
+        "alTraceAccepts_sound proves the trace acceptor. Tie: full loops are run on every real strategy (one object across cycles) and the "
+        "recorded traces are checked by the Lean acceptor and the Python evaluation of the same conclusions.",
+        design="§4 C14",
+        technique="Lean 4 proof (induction over the loop) + trace validation against the implementation",
+    ),
 }
 
 NOT_YET = "check not built yet in this round (design in DESIGN.md §4); no claim is made"
